@@ -138,7 +138,6 @@ SampleDrift(net, st, e) ==
     IF ~IsProb(e.theta) THEN "drift:sampled coefficients are not a probability vector"
     ELSE IF st.hard /\ ~(net.gumbel /\ e.training) /\ NoTie(st.alpha) /\ e.theta # HotTheta(net, aw, DD)
     THEN "drift:hard sample is not the one-hot of the arg-max"
-    ELSE IF e.a = "summary" /\ e.reported # e.theta THEN "drift:summary() reports other coefficients than stored"
     ELSE "ok"
 
 ----------------------------------------------------------------------------
@@ -159,10 +158,12 @@ Walk(prop, net, ev, i, st) ==
       [] e.a = "hard" -> Walk(prop, net, ev, i + 1, [st EXCEPT !.hard = e.v, !.fresh = FALSE])
       [] e.a = "temp" -> Walk(prop, net, ev, i + 1, [st EXCEPT !.fresh = FALSE])
       [] e.a = "mode" -> Walk(prop, net, ev, i + 1, [st EXCEPT !.fresh = FALSE])
-      [] e.a \in {"fwd", "summary"} ->
+      [] e.a = "fwd" ->
             Walk(prop, net, ev, i + 1,
                  [st EXCEPT !.fresh = TRUE, !.strain = e.training,
                             !.drift = Keep(st.drift, SampleDrift(net, st, e))])
+      [] e.a = "summary" ->      \* an observer since plinio commit ba220ec: it neither samples nor stores coefficients
+            Walk(prop, net, ev, i + 1, st)
       [] e.a = "cost" ->
             LET v == IF prop = "C06" THEN CostVerdict(net, st, e, i) ELSE OK IN
             IF v.k = "viol" THEN v.m
